@@ -12,6 +12,7 @@ import multiprocessing as mp
 
 HERE = os.path.dirname(os.path.abspath(__file__))
 VERIF = os.path.dirname(HERE)
+EVDIR = os.environ.get("VERIF_EVIDENCE") or os.path.join(VERIF, "evidence")     # development aid (tools/trymut.sh): keep evidence of runs against a MUTATED tree out of /verif/evidence
 sys.path.insert(0, HERE)
 os.environ.setdefault("PYTHONHASHSEED", "0")
 
@@ -370,8 +371,8 @@ def do_run(a):
                 k = match_known(known, mv); ev["known_hits"][k["id"]] = ev["known_hits"].get(k["id"], 0) + 1
                 continue
             seen_classes.add(sigkey)
-            os.makedirs(os.path.join(VERIF, "evidence", "replay"), exist_ok=True)
-            rp = os.path.join(VERIF, "evidence", "replay", "%s-%d.json" % (prop, nv["seed"]))
+            os.makedirs(os.path.join(EVDIR, "replay"), exist_ok=True)
+            rp = os.path.join(EVDIR, "replay", "%s-%d.json" % (prop, nv["seed"]))
             json.dump({"property": prop, "violation": mv, "plan": mplan, "variant": variant, "original_ops": sum(len(t["ops"]) for t in plan["tasks"])}, open(rp, "w"), indent=1)
             # fresh-process replay must fail the same way
             rr = subprocess.run([sys.executable, os.path.join(HERE, "check.py"), "replay", rp, "--nobuild"], stdout=subprocess.PIPE, stderr=subprocess.STDOUT, text=True)
@@ -420,8 +421,8 @@ def write_evidence(mod, prop, tier, seed, ev, wall, nviol, build_s, known, worke
     doc = {"property_id": prop, "tier": tier, "seed": seed, "level": mod.LEVEL, "coverage": cov,
            "assumptions": getattr(mod, "ASSUMPTIONS", []) + ["simfs models the POSIX semantics the library relies on (checked by the stub-fidelity self-test)", "process death loses only user-space buffers (the library never calls fsync; power loss is out of scope)"],
            "wall_s": round(wall, 2), "violations": nviol}
-    os.makedirs(os.path.join(VERIF, "evidence"), exist_ok=True)
-    json.dump(doc, open(os.path.join(VERIF, "evidence", prop + ".json"), "w"), indent=1, default=str)
+    os.makedirs(EVDIR, exist_ok=True)
+    json.dump(doc, open(os.path.join(EVDIR, prop + ".json"), "w"), indent=1, default=str)
 
 def do_replay(a):
     doc = json.load(open(a.file))
@@ -594,9 +595,9 @@ def do_selftest(a):
         shutil.rmtree(scratch, ignore_errors=True)
     print("stub fidelity: %d fault-free plans executed on simfs and on the real kernel (pass-through): %d disagreements" % (fid_n, len(fid_bad)))
     for m in fid_bad[:10]: print("  DISAGREE", m)
-    os.makedirs(os.path.join(VERIF, "evidence"), exist_ok=True)
+    os.makedirs(EVDIR, exist_ok=True)
     json.dump({"determinism": {"plans": total, "per_property": per, "mismatches": [list(m) for m in mism]}, "stub_fidelity": {"plans": fid_n, "disagreements": [list(m) for m in fid_bad]}, "wall_s": round(time.time() - t0, 1)},
-              open(os.path.join(VERIF, "evidence", "selftest.json"), "w"), indent=1)
+              open(os.path.join(EVDIR, "selftest.json"), "w"), indent=1)
     z1.close(); z2.close()
     return 0 if not mism and not fid_bad else 2
 
